@@ -425,3 +425,27 @@ def f13_stream_state(ctx, L):
         if not sticky:
             L.ok('F13.stream-state-restored', f.key(), f.site(), 'no sticky manipulator')
     L.floor('F13.stream-state-restored', n, 12)
+
+
+def no_virtual_in_message(ctx, L):
+    """The generated classes derive from prophy::detail::message<T>; the optional codec takes the flag-to-value gap from the C++
+    alignment of T (known finding C03g), get_byte_size from the wire layout. A virtual member in the base adds a vptr and raises
+    the alignment of every generated class to 8: optionals of 4-aligned composites decode 4 bytes more than get_byte_size() and
+    message::encode writes past its vector."""
+    cx = ctx.cxx
+    bad = []
+    seen = 0
+    recs = [n for name, args, n in cx.records if name == 'message' and (n.file or '').endswith('detail/message.hpp')]
+    for r in recs:
+        for k in r.walk():
+            if k.kind in ('CXXMethodDecl', 'CXXDestructorDecl', 'CXXConstructorDecl', 'FunctionTemplateDecl'):
+                seen += 1
+                if k.j.get('virtual') or k.j.get('pure'):
+                    bad.append(k)
+        for b in r.j.get('bases', []) or []:
+            if b.get('isVirtual'):
+                bad.append(r)
+    L.check(bool(recs) and not bad, 'C07.no-vptr', 'message<T>', recs[0].site() if recs else 'prophy_cpp/include/prophy/detail/message.hpp',
+            'prophy::detail::message<T> (the base of every generated class) must not have virtual members or bases: a vptr changes the '
+            'alignment of the generated classes that the optional codec derives the flag-to-value gap from (found %d member functions, '
+            'virtual: %s)' % (seen, [getattr(b, 'name', '?') for b in bad]), '')
